@@ -5,6 +5,7 @@ from lib import Case, hx, enc_attrs, enc_els, dec_attrs, doc_case, unhx
 import xmlcanon, scene
 from scene import fmt, dy
 
+DOC_MODEL = True     # every generated document also runs through the composed Coq model of the whole transform
 RULE = ('non-empty lists of 1-4 referenced shapes (rect, circle, ellipse, line, box; groups and nested surround/inside through '
         'documents) x container kinds rect/circle/ellipse x margin forms (1-4 values, absolute, percent, negative); hook '
         'resolve_position compared bit-exactly with the extracted Coq model; enclosure inequalities evaluated on the output '
@@ -74,8 +75,8 @@ def check_case(target, mode, refs, margin, out_attrs):
             if not scene.close(got, G, TOL):
                 return 'surround rect is %s, the union grown by the margin is %s' % (got, [float(v) for v in G])
         else:
-            if G[2] < G[0] or G[3] < G[1]:
-                return None   # negative margins inverted the box: nothing to enclose
+            if G[2] <= G[0] or G[3] <= G[1]:
+                return None   # negative margins emptied or inverted the box: no area to enclose (a round shape of zero width has no interior)
             for p in outline_points('rect', G):
                 if not inside_shape(target, got, p):
                     return 'corner %s of the grown union %s is outside the surrounding %s %s' % (p, [float(v) for v in G], target, got)
